@@ -68,6 +68,9 @@ PX_NEW_FILES = ["app", "app.log.bak", "app.log.2", "app.log.1.gz", "out", "f", "
                 "pre_dir/app", "pre_dir/app.log.2", "pre_dir/dat", "pre_dir/data.txt.bak", "pre_dir/d/k", "out_dir/out.txt",
                 "nd/app.log", "nd/app.log.1", "nd/app.log.2", "nd/f1", "nd/f10", "nd/d.txt", "nd/d/x", "nd/d2/x"]
 PX_NEW_DIRS = ["out", "ou", "d3", "D", "pre_di", "pre_dir2", "pre_dir/d3", "pre_dir/da", "out_dir2", "nd", "nd2", "nd/d", "nd/d2", "nd/sub/sub2"]
+PX_PAIRS_F = [("f", "f10"), ("app", "app.log.2"), ("pre_dir/app", "pre_dir/app.log.2"), ("out_dir/ou", "out_dir/out.txt"), ("pre_dir/d/k", "pre_dir/d/k.1"),
+              ("nd.txt", "nd.txt.bak"), ("pre_dir/new.log", "pre_dir/new.log.1")]
+PX_PAIRS_D = [("ou", "out"), ("pre_di", "pre_dir2"), ("nd", "nd2"), ("pre_dir/da", "pre_dir/da2"), ("out_dir/s", "out_dir/s_2")]
 POOLS = {}
 
 OPEN_MODES = {"open-write": "w", "open-append": "a", "open-rplus": "r+", "open-excl": "x"}
@@ -572,6 +575,9 @@ def _role(step, entry, path):
         return ""
     if any(t is not None and t.startswith(path + "/") for t in (a, b)):
         return ":intermediate-dir"
+    for t in (a, b):
+        if t is not None and os.path.dirname(t) == os.path.dirname(path) and os.path.basename(path).startswith(os.path.basename(t)):
+            return ":sibling-whose-name-starts-with-the-operand"
     return ":other-path"
 
 
@@ -688,10 +694,27 @@ def _gen_case(rng, length=None, flavor="base"):
                 return rng.choice(p)
         return rng.choice(pools[-1][1])
 
-    for _ in range(n):
+    prelude = []
+    if flavor == "prefix" and n >= 3 and rng.random() < 0.3:
+        # two created prefix-related siblings (either order), then one of them is removed / renamed away
+        isdir = rng.random() < 0.3
+        short, long_ = rng.choice(PX_PAIRS_D if isdir else PX_PAIRS_F)
+        first, second = (short, long_) if rng.random() < 0.5 else (long_, short)
+        mk = rng.choice(["mkdir", "makedirs", "path-mkdir"]) if isdir else rng.choice(["open-write", "open-append", "path-write_text", "path-touch", "os-open-creat"])
+        victim = rng.choice([short, long_])
+        if rng.random() < 0.5:
+            third = {"op": rng.choice(["rmdir", "path-rmdir", "rmtree"] if isdir else ["remove", "unlink", "path-unlink"]), "a": victim}
+        else:
+            third = {"op": rng.choice(["rename", "replace", "move", "path-rename", "path-replace", "rename-kw", "move-kw"]), "a": victim,
+                     "b": os.path.join(os.path.dirname(victim), "zz_moved")}
+        prelude = [{"op": mk, "a": first}, {"op": mk, "a": second}, third]
+        (created_dirs if isdir else created_files).extend([short, long_])
+    for k in range(n):
         fam = rng.random()
         step = {}
-        if fam < 0.34:
+        if k < len(prelude):
+            step = prelude[k]
+        elif fam < 0.34:
             op = rng.choice(WRITERS + (["open-append", "open-write", "path-write_text"] if rng.random() < 0.3 else []))
             a = pick([(0.45, pre_files), (0.35, NEW_FILES), (0.2, created_files)])
             if a not in pre_files and a not in created_files:
@@ -1008,8 +1031,7 @@ def _directed_prefix_cases():
         add(("open-write", "pre_dir/app"), (op, "pre_dir/app", "pre_dir/app.log.2", q), (op, "pre_dir/app.log.1", "pre_dir/app.log.3", q))
     # two created, prefix-related siblings in a directory that is NOT created by the execution; the shorter / the longer one is
     # removed or renamed away, in both creation orders
-    pairs_f = [("f", "f10"), ("app", "app.log.2"), ("pre_dir/app", "pre_dir/app.log.2"), ("out_dir/ou", "out_dir/out.txt"), ("pre_dir/d/k", "pre_dir/d/k.1")]
-    pairs_d = [("ou", "out"), ("pre_di", "pre_dir2"), ("nd", "nd2"), ("pre_dir/da", "pre_dir/da2"), ("out_dir/s", "out_dir/s_2")]
+    pairs_f, pairs_d = PX_PAIRS_F[:5], PX_PAIRS_D
     for op in DELETES + ["rename", "replace", "move", "path-rename", "path-replace", "rename-kw", "move-kw"]:
         q = sp_of(op)
         two = op not in DELETES
